@@ -149,3 +149,187 @@ def truthiness_of(test: ast.AST, name: str) -> bool:
                 op, ast.NotEq) and isinstance(r, ast.List) and not r.elts:
             return True
     return False
+
+
+# --------------------------------------------------------------------------
+# idiom-insensitive helpers (robustness against behaviour-preserving edits)
+# --------------------------------------------------------------------------
+_LOG_METHODS = {"debug", "info", "warning", "warn", "error", "exception",
+                "critical", "log", "write", "set_description", "update"}
+_LOG_BASES = ("logging", "logger", "LOGGER", "log", "tqdm", "warnings",
+              "self.logger", "self.log")
+
+
+def is_noise(st: ast.stmt) -> bool:
+    """Statements without effect on the analysed state: ``pass``, docstrings /
+    bare constants, ``assert``, logging / progress / print calls."""
+    if isinstance(st, (ast.Pass, ast.Assert)):
+        return True
+    if isinstance(st, ast.Expr):
+        v = st.value
+        if isinstance(v, ast.Constant):
+            return True
+        if isinstance(v, ast.Call):
+            d = dotted(v.func) or ""
+            if d == "print":
+                return True
+            if isinstance(v.func, ast.Attribute) and v.func.attr in \
+                    _LOG_METHODS:
+                base = v.func.value
+                bd = dotted(base) or ""
+                if bd.split(".")[0] in ("logging", "tqdm", "warnings") or \
+                        bd.lower().endswith(("logger", "log")) or bd in \
+                        _LOG_BASES:
+                    return True
+                # logging.getLogger(...).debug(...)
+                if isinstance(base, ast.Call) and (dotted(base.func) or ""
+                                                   ).endswith("getLogger"):
+                    return True
+    return False
+
+
+def effective(body: Iterable[ast.stmt]) -> list[ast.stmt]:
+    return [s for s in body if not is_noise(s)]
+
+
+def strip_not(test: ast.AST) -> tuple[ast.AST, bool]:
+    """``not not x`` -> (x, True); ``not x`` -> (x, False)."""
+    pos = True
+    while isinstance(test, ast.UnaryOp) and isinstance(test.op, ast.Not):
+        test, pos = test.operand, not pos
+    return test, pos
+
+
+_NEG = {ast.In: ast.NotIn, ast.NotIn: ast.In, ast.Is: ast.IsNot,
+        ast.IsNot: ast.Is, ast.Eq: ast.NotEq, ast.NotEq: ast.Eq,
+        ast.Lt: ast.GtE, ast.GtE: ast.Lt, ast.Gt: ast.LtE, ast.LtE: ast.Gt}
+_MIRROR = {ast.Lt: ast.Gt, ast.Gt: ast.Lt, ast.LtE: ast.GtE, ast.GtE: ast.LtE,
+           ast.Eq: ast.Eq, ast.NotEq: ast.NotEq}
+
+
+def canon_test(test: ast.AST) -> tuple[str, ...]:
+    """Canonical form of a branch test, insensitive to ``not``, to the
+    orientation of a comparison and to ``is not None`` vs truthiness is NOT
+    attempted.  Returns ("cmp", left, op, right) with negation folded into
+    the operator and the operands ordered so that ``a < b`` and ``b > a``
+    coincide; ("truth", expr, "1"/"0") for plain truthiness tests; otherwise
+    ("expr", text, polarity)."""
+    e, pos = strip_not(test)
+    if isinstance(e, ast.Compare) and len(e.ops) == 1:
+        op = type(e.ops[0])
+        if not pos and op in _NEG:
+            op, pos = _NEG[op], True
+        l, r = e.left, e.comparators[0]
+        if op in _MIRROR:
+            lt, rt = unparse(l), unparse(r)
+            if op in (ast.Gt, ast.GtE) or (
+                    op in (ast.Eq, ast.NotEq) and lt > rt):
+                l, r, op = r, l, _MIRROR[op]
+        if pos:
+            return ("cmp", unparse(l), op.__name__, unparse(r))
+    return ("truth" if isinstance(e, (ast.Name, ast.Attribute, ast.Subscript,
+                                      ast.Call)) else "expr",
+            unparse(e), "1" if pos else "0")
+
+
+def arm_tests(ifst: ast.If) -> tuple[tuple[str, ...], tuple[str, ...]]:
+    """Canonical condition under which the body / the orelse of an ``if``
+    runs."""
+    return canon_test(ifst.test), canon_test(
+        ast.UnaryOp(op=ast.Not(), operand=ifst.test))
+
+
+def arm_where(ifst: ast.If, want: tuple[str, ...]) -> Optional[list[ast.stmt]]:
+    """The arm of ``ifst`` that runs exactly when the canonical condition
+    ``want`` holds (None if neither arm does)."""
+    t, f = arm_tests(ifst)
+    if t == want:
+        return ifst.body
+    if f == want:
+        return ifst.orelse
+    return None
+
+
+def guards_of(fn: ast.AST, target: ast.AST) -> list[tuple[str, ...]]:
+    """Canonical conditions (outermost first) of the ``if`` arms that
+    lexically enclose ``target``."""
+    out: list[tuple[str, ...]] = []
+    for enc in enclosing(fn, target, (ast.If,)):
+        assert isinstance(enc, ast.If)
+        t, f = arm_tests(enc)
+        out.append(t if in_body(enc, "body", target) else f)
+    return out
+
+
+def const_index(e: ast.AST) -> Optional[int]:
+    """``x[0]`` -> 0 ; ``x[-1]`` -> -1 ; else None."""
+    if isinstance(e, ast.Subscript):
+        s = e.slice
+        if isinstance(s, ast.Constant) and isinstance(s.value, int):
+            return s.value
+        if isinstance(s, ast.UnaryOp) and isinstance(s.op, ast.USub) and \
+                isinstance(s.operand, ast.Constant):
+            return -s.operand.value
+    return None
+
+
+def loopvar_over(defs: Defs, e: ast.AST, source: Callable[[ast.AST], bool],
+                 index: Optional[int] = None) -> bool:
+    """Is ``e`` a name bound only as the target (or, with ``index``, the
+    ``index``-th element of the tuple target) of ``for``/comprehension loops
+    whose iterable satisfies ``source`` (looked through wrappers such as
+    ``tqdm(x, ...)`` / ``enumerate`` is *not* looked through)?"""
+    if not isinstance(e, ast.Name):
+        return False
+    bs = defs.of(e.id)
+    # a name bound by an enclosing comprehension is that comprehension's
+    comps = [c for c in ast.walk(defs.func) if isinstance(
+        c, (ast.ListComp, ast.SetComp, ast.GeneratorExp, ast.DictComp))
+        and any(x is e for x in ast.walk(c))
+        and any(isinstance(n, ast.Name) and n.id == e.id
+                for g in c.generators for n in ast.walk(g.target))]
+    if comps:
+        gens = [g for c in comps for g in c.generators]
+        bs = [b for b in bs if b.kind == "comp" and any(b.stmt is g
+                                                        for g in gens)]
+    if not bs:
+        return False
+    for b in bs:
+        if b.kind not in ("for", "comp") or b.value is None:
+            return False
+        t = b.target
+        if index is None:
+            if not (isinstance(t, ast.Name) and t.id == e.id):
+                return False
+        else:
+            if not (isinstance(t, (ast.Tuple, ast.List)) and len(t.elts) > index
+                    and isinstance(t.elts[index], ast.Name)
+                    and t.elts[index].id == e.id):
+                return False
+        it = defs.resolve(b.value)
+        while isinstance(it, ast.Call) and (dotted(it.func) or "").split(
+                ".")[-1] in ("tqdm", "iter", "list", "tuple") and it.args:
+            it = defs.resolve(it.args[0])
+        if not source(it):
+            return False
+    return True
+
+
+def is_param(name: str) -> Callable[[ast.AST], bool]:
+    return lambda e: isinstance(e, ast.Name) and e.id == name
+
+
+def cguards(ctx: Ctx, fi: FuncInfo, target: ast.AST) -> list[tuple[str, ...]]:
+    """Canonical conditions (outermost first) that hold whenever control
+    reaches the statement containing ``target``: CFG-based (dominating branch
+    edges), so ``if c: X`` and ``if not c: continue`` + ``X`` agree."""
+    cfg = ctx.cfg(fi)
+    nid = cfg.node(target) if cfg.has(target) else cfg.container(target)
+    if nid is None:
+        raise AnalysisError(f"{fi.qualname}: no CFG node for "
+                            f"'{unparse(target)[:60]}'")
+    out = []
+    for test, sense in cfg.controlling(nid):
+        out.append(canon_test(test if sense else
+                              ast.UnaryOp(op=ast.Not(), operand=test)))
+    return out
